@@ -1,4 +1,194 @@
-(** C13 — dashing (under construction) *)
-From Coq Require Import ZArith Reals Bool List.
-From KV Require Import Scalar RInst Geom Curves Path Dash DashSpec.
-Example C13_placeholder : True. Proof. exact I. Qed.
+(** C13 — Dashing conserves length and follows the pattern.
+
+    Objects: [dash] = the four-state machine of model/Dash.v (stroke.rs [DashIterator], with the four
+    repairs of proposed_fixes/C13-*.diff; [dash_pinned] = the code exactly as pinned);
+    [dash_spec]/[subpaths]/[plain]/[subpath_out] = the structural description of spec/DashSpec.v;
+    [cum]/[on_meas]/[Trace]/[PTrace] = the pattern on the half-line and what "pieces in path order
+    that switch where the pattern switches" means, independent of any code.
+    Real instance: polylines (Line::arclen = hypot, inv_arclen = a division, subsegment = lerp are
+    exact there); curved segments enter the iterator only through arclen/inv_arclen (property C03)
+    and count as length 0 in [poly_arclen].  Statements only; proofs in proofs/C13_*.v. *)
+From Coq Require Import ZArith Reals Bool List Floats.
+From KV Require Import Scalar RInst F64 Geom Curves Path Dash DashSpec C13_sim C13_decl C13_proofs C13_examples.
+Import ListNotations.
+Local Open Scope R_scope.
+
+(** [dash_phase_init]: the initial loop ends within [init_fuel] iterations and leaves
+    (dash_ix, dash_remaining, is_active) = the state of the pattern at the offset: interval number [k]
+    of the pattern repeated cyclically, "on" iff [k] is even (the code toggles at every interval, so an
+    odd-length pattern alternates over two periods), [cum k <= o <= cum (k+1)], remaining
+    [cum (k+1) - o]; an exhausted "off" interval is never the answer (repair D). *)
+Theorem C13_dash_phase_init : forall ds dm o fuel,
+  pattern_ok ds dm -> 0 <= o -> (init_fuel dm o <= fuel)%nat ->
+  exists k ph, dash_init fixes_all ds fuel o = InitOk ph /\
+    (p_ix ph = (k mod length ds)%nat /\ p_act ph = Nat.even k /\ p_rem ph = cum ds (S k) - o /\
+     cum ds k <= o <= cum ds (S k)) /\
+    (p_rem ph = 0 -> p_act ph = true).
+Proof. exact thm_phase_init. Qed.
+
+(** [dash_inv]: the invariant of [step] on a line [l] whose start sits at pattern position [x0]:
+    with [0 <= t <= 1], [seg_remaining = (1-t) * |l|] and the phase that of position [x0 + t|l|] in
+    interval [k], a dash transition moves [t] forward to exactly the end [cum (k+1)] of the interval and
+    re-establishes the invariant for interval [k+1]; otherwise the segment ends inside interval [k]. *)
+Theorem C13_dash_inv : forall ds dm (l : Line R) x0 t srem (ph : Phase R) k,
+  pattern_ok ds dm ->
+  0 <= t <= 1 -> srem = (1 - t) * llen l -> phase_at ds k (x0 + t * llen l) ph ->
+  (p_rem ph < srem ->
+     let t' := switch_t poly_inv_arclen (SegLine l) t ph in
+     t <= t' <= 1 /\ srem - p_rem ph = (1 - t') * llen l /\
+     x0 + t' * llen l = cum ds (S k) /\
+     phase_at ds (S k) (x0 + t' * llen l) (ph_next ds ph)) /\
+  (srem <= p_rem ph -> phase_at ds k (x0 + llen l) (ph_final ph srem)).
+Proof. exact thm_inv. Qed.
+
+(** The machine computes the structural specification — for every element list, over ANY scalar
+    (so also on binary64) whose point equality is reflexive on the points that occur; and [next]'s loop
+    runs at most 2 * (emitted elements) + 5 * (input elements) + 2 times. *)
+Theorem C13_machine_is_spec :
+  forall (T : Type) (ST : Scalar T) (arclen : PathSeg T -> T) (inv_arclen : PathSeg T -> T -> T)
+         (ds : list T) (init : Phase T),
+  (forall p : Point T, pt_neb p p = false) ->
+  forall fuel els out,
+  dash_spec_from arclen inv_arclen ds fuel init els = Some out ->
+  exists n, run arclen inv_arclen fixes_all ds init n (init_state init els) = Some (out, n) /\
+            (n <= 2 * length out + 5 * length els + 2)%nat.
+Proof. exact (@machine_dash_spec). Qed.
+
+(** [dash_no_loss] / termination: for every element history (any interleaving of MoveTo / LineTo /
+    QuadTo / CurveTo / ClosePath) and WHATEVER [arclen]/[inv_arclen] return for the segments (lengths
+    non-negative — for curves that is property C03's business) the iterator ends; its output is that of
+    the specification, in which every segment of every sub-path is dashed; explicit sufficient fuel.
+    ([dash] = [dash_gen poly_arclen poly_inv_arclen fixes_all] is the instance for polylines.) *)
+Theorem C13_dash_no_loss : forall ds dm (al : PathSeg R -> R) (ial : PathSeg R -> R -> R) o els fuel,
+  pattern_ok ds dm -> (forall s, 0 <= al s) ->
+  0 <= o -> (init_fuel dm o <= fuel)%nat -> fuel_ok al dm fuel els ->
+  exists out n, dash_spec al ial ds fuel o els = Some out /\
+    (n <= 2 * length out + 5 * length els + 2)%nat /\
+    forall f, (fuel <= f)%nat -> (n <= f)%nat -> dash_gen al ial fixes_all ds f o els = DashOk out n.
+Proof. exact thm_terminates. Qed.
+
+(** [dash_restart_per_subpath]: the output is the concatenation, in order, of the outputs of the
+    sub-paths, every one dashed from the same initial phase — that of the offset. *)
+Theorem C13_dash_restart_per_subpath :
+  forall ds dm (al : PathSeg R -> R) (ial : PathSeg R -> R -> R) o els fuel,
+  pattern_ok ds dm -> (forall s, 0 <= al s) ->
+  0 <= o -> (init_fuel dm o <= fuel)%nat -> fuel_ok al dm fuel els ->
+  exists k init outs n,
+    dash_init fixes_all ds fuel o = InitOk init /\ phase_at ds k o init /\
+    Forall2 (fun sp out_i => subpath_out al ial ds fuel init sp = Some out_i) (subpaths els) outs /\
+    forall f, (fuel <= f)%nat -> (n <= f)%nat ->
+      dash_gen al ial fixes_all ds f o els = DashOk (concat outs) n.
+Proof. exact thm_restart. Qed.
+
+(** [dash_closed_join] (any scalar): on a closed sub-path with pieces [pcs] in path order,
+    - one dash all around: MoveTo, the pieces, ClosePath;
+    - first and last dash both on: the pieces of the first dash follow the last piece with no MoveTo
+      in between (and there is a last piece);
+    - first on, last off: the first dash comes last, with its MoveTo;
+    - first off: the pieces as they are. *)
+Theorem C13_dash_closed_join :
+  forall (T : Type) (ST : Scalar T) (arclen : PathSeg T -> T) (inv_arclen : PathSeg T -> T -> T)
+         (ds : list T) (init : Phase T) fuel start s0 r pcs nsw phe,
+  plain arclen inv_arclen ds fuel (s0 :: r) init = Some (pcs, nsw, phe) ->
+  exists out, subpath_out arclen inv_arclen ds fuel init (mkSub start (s0 :: r) true) = Some out /\
+  (p_act init = true -> nsw = 0%nat ->
+     out = MoveTo (seg_start s0) :: pcs ++ [ClosePath] /\ forallb (@not_move T) pcs = true /\ p_act phe = true) /\
+  (p_act init = true -> nsw <> 0%nat -> p_act phe = true ->
+     out = dropWhile (@not_move T) pcs ++ takeWhile (@not_move T) pcs /\ dropWhile (@not_move T) pcs <> []) /\
+  (p_act init = true -> nsw <> 0%nat -> p_act phe = false ->
+     out = dropWhile (@not_move T) pcs ++ MoveTo (seg_start s0) :: takeWhile (@not_move T) pcs) /\
+  (p_act init = false -> out = pcs).
+Proof. exact (@closed_cases). Qed.
+
+(** an open sub-path: the first dash (if the sub-path starts on) is emitted after the others *)
+Theorem C13_dash_open_rotation :
+  forall (T : Type) (ST : Scalar T) (arclen : PathSeg T -> T) (inv_arclen : PathSeg T -> T -> T)
+         (ds : list T) (init : Phase T) fuel start s0 r pcs nsw phe,
+  plain arclen inv_arclen ds fuel (s0 :: r) init = Some (pcs, nsw, phe) ->
+  exists out, subpath_out arclen inv_arclen ds fuel init (mkSub start (s0 :: r) false) = Some out /\
+  (p_act init = true ->
+     out = dropWhile (@not_move T) pcs ++ MoveTo (seg_start s0) :: takeWhile (@not_move T) pcs) /\
+  (p_act init = false -> out = pcs).
+Proof. exact (@open_cases). Qed.
+
+(** [dash_order_and_switch_points] and [dash_on_measure], polylines (MoveTo/LineTo/ClosePath in any
+    interleaving): the segments of every sub-path are connected lines [ls]; its pieces [pcs] form a
+    [PTrace] — along each line in turn, at non-decreasing parameters, every piece ending exactly where
+    the shifted pattern switches or at the end of the line, "on" intervals drawn and "off" intervals
+    skipped by a MoveTo — and their total length is the measure of the "on" set of the pattern inside
+    [o, o + length of the sub-path]. *)
+Theorem C13_dash_order_switch_points_on_measure : forall ds dm fuel (init : Phase R) k o els sp,
+  pattern_ok ds dm -> Forall poly_el els -> In sp (subpaths els) ->
+  phase_at ds k o init -> fuel_ok poly_arclen dm fuel els ->
+  exists ls pcs nsw phe k',
+    sp_segs sp = map (@SegLine R) ls /\ chained ls /\
+    plain poly_arclen poly_inv_arclen ds fuel (sp_segs sp) init = Some (pcs, nsw, phe) /\
+    PTrace ds ls o k pcs k' /\ phase_at ds k' (o + total_len ls) phe /\
+    forall K, o + total_len ls < cum ds K ->
+      forall cur, (Nat.even k = true -> cur = first_pt ls cur) ->
+      len_from cur pcs = on_meas ds K o (o + total_len ls).
+Proof. exact thm_polyline. Qed.
+
+(** [dash_on_measure] on what is emitted: for every sub-path of a polyline, the elements the iterator
+    emits for it ([subpath_out]; [C13_dash_restart_per_subpath] says the whole output is their
+    concatenation), read as a path (MoveTo starts a dash, ClosePath draws back to its start), have total
+    length = the measure of the "on" set of the pattern shifted by the offset inside [o, o + L]. *)
+Theorem C13_dash_on_measure : forall ds dm fuel (init : Phase R) k o els sp,
+  pattern_ok ds dm -> Forall poly_el els -> In sp (subpaths els) ->
+  phase_at ds k o init -> fuel_ok poly_arclen dm fuel els ->
+  exists out ls, subpath_out poly_arclen poly_inv_arclen ds fuel init sp = Some out /\
+    sp_segs sp = map (@SegLine R) ls /\
+    forall K, o + total_len ls < cum ds K -> forall d, len2 d d out = on_meas ds K o (o + total_len ls).
+Proof. exact thm_out_len. Qed.
+
+(** non-vacuity: a pattern meeting the hypotheses *)
+Example C13_pattern_ok_example : pattern_ok [3; 2] 2.
+Proof. exact ex_pattern_ok. Qed.
+
+Example C13_on_meas_example : on_meas [3; 2] 4 0 10 = 6 /\ on_meas [3; 2] 6 4 14 = 6.
+Proof. exact ex_on_meas. Qed.
+
+(** ** The pinned code violates the property (binary64 executions of the model of the pinned code,
+       [dash_pinned], next to the repaired [dash]) *)
+Local Open Scope float_scope.
+
+(** A. closed sub-path inside one dash: ClosePath is emitted before the last piece *)
+Example C13_closed_loop_order_refuted :
+  dash_pinned [100; 2] 100 0 ex_tri
+  = DashOk [MoveTo (Pf 0 0); LineTo (Pf 4 0); LineTo (Pf 4 4); ClosePath; LineTo (Pf 0 0)] 12.
+Proof. exact ex_order_pinned. Qed.
+Example C13_closed_loop_order_repaired :
+  dash [100; 2] 100 0 ex_tri
+  = DashOk [MoveTo (Pf 0 0); LineTo (Pf 4 0); LineTo (Pf 4 4); LineTo (Pf 0 0); ClosePath] 12.
+Proof. exact ex_order_fixed. Qed.
+
+(** B. ClosePath on an empty sub-path: pieces that are not on the source path *)
+Example C13_empty_close_refuted :
+  dash_pinned [2; 1] 100 0 [MoveTo (Pf 5 5); ClosePath] = DashOk [ClosePath; LineTo (Pf 0 0)] 7.
+Proof. exact ex_empty_close_pinned. Qed.
+Example C13_empty_close_repaired :
+  dash [2; 1] 100 0 [MoveTo (Pf 5 5); ClosePath] = DashOk [] 3.
+Proof. exact ex_empty_close_fixed. Qed.
+
+(** C. an empty closed sub-path after an open one: the MoveTo of the withheld first dash is lost *)
+Example C13_lost_moveto_refuted :
+  dash_pinned [3; 2] 100 0 [MoveTo (Pf 0 0); LineTo (Pf 4 0); MoveTo (Pf 5 5); ClosePath]
+  = DashOk [LineTo (Pf 3 0)] 7.
+Proof. exact ex_lost_moveto_pinned. Qed.
+Example C13_lost_moveto_repaired :
+  dash [3; 2] 100 0 [MoveTo (Pf 0 0); LineTo (Pf 4 0); MoveTo (Pf 5 5); ClosePath]
+  = DashOk [MoveTo (Pf 0 0); LineTo (Pf 3 0)] 8.
+Proof. exact ex_lost_moveto_fixed. Qed.
+
+(** D. offset of exactly one period on a closed sub-path: last and first dash both on, not joined *)
+Example C13_period_offset_join_refuted :
+  dash_pinned [3; 2] 100 5 ex_sq
+  = DashOk [MoveTo (Pf 0 0); LineTo (Pf 3 0); MoveTo (Pf 4 1); LineTo (Pf 4 4); LineTo (Pf 4 4);
+            MoveTo (Pf 2 4); LineTo (Pf 0 4); LineTo (Pf 0 3); MoveTo (Pf 0 1); LineTo (Pf 0 0)] 15.
+Proof. exact ex_period_offset_pinned. Qed.
+Example C13_period_offset_join_repaired :
+  dash [3; 2] 100 5 ex_sq = dash [3; 2] 100 0 ex_sq /\
+  dash [3; 2] 100 0 ex_sq
+  = DashOk [MoveTo (Pf 4 1); LineTo (Pf 4 4); LineTo (Pf 4 4); MoveTo (Pf 2 4); LineTo (Pf 0 4);
+            LineTo (Pf 0 3); MoveTo (Pf 0 1); LineTo (Pf 0 0); LineTo (Pf 3 0)] 15.
+Proof. exact ex_period_offset_fixed. Qed.
